@@ -162,6 +162,23 @@ func (w *world) byzBuild(s sim.Step) (*specqbft.SignedMessage, spectypes.Operato
 			if mode9 != 0 {
 				mode = 0
 			}
+			if mode9 == 6 { // a quorum of MESSAGES from fewer signers: unprepared round-changes only, padded with copies of a Byzantine one
+				w.d.Fault("byz-duplicate-round-change-in-justification")
+				var un []*specqbft.SignedMessage
+				var own *specqbft.SignedMessage
+				for _, m := range rcs {
+					if m.Message.DataRound == 0 {
+						un = append(un, m)
+						if own == nil && !w.nodes[m.Signers[0]-1].honest {
+							own = m
+						}
+					}
+				}
+				for own != nil && len(un) < q {
+					un = append(un, own.DeepCopy())
+				}
+				rcs = un
+			}
 			if (mode9 == 0 && r.Chance(0.35)) || mode9 == 3 { // hide prepared round-changes (lock stealing attempt)
 				var un []*specqbft.SignedMessage
 				for _, m := range rcs {
@@ -204,6 +221,25 @@ func (w *world) byzBuild(s sim.Step) (*specqbft.SignedMessage, spectypes.Operato
 		sm.FullData = val
 	case tDecided:
 		base.MsgType = specqbft.CommitMsgType
+		if mode9 == 6 { // the genuine certificate of the best-supported (round, root) with other data attached
+			type rr struct {
+				r    specqbft.Round
+				root [32]byte
+			}
+			cnt, bestN := map[rr]int{}, 0
+			for _, m := range w.poolFilter(func(m *specqbft.SignedMessage) bool {
+				return m.Message.MsgType == specqbft.CommitMsgType && len(m.Signers) == 1 && m.Message.Height == w.height
+			}) {
+				k := rr{m.Message.Round, m.Message.Root}
+				cnt[k]++
+				if cnt[k] > bestN {
+					bestN, round, root = cnt[k], k.r, k.root
+				}
+			}
+			base.Round, base.Root = round, root
+			forge = fgRootMismatch
+			w.d.Fault("byz-decided-with-substituted-data")
+		}
 		commits := w.poolFilter(func(m *specqbft.SignedMessage) bool {
 			return m.Message.MsgType == specqbft.CommitMsgType && m.Message.Round == round && m.Message.Root == root && m.Message.Height == w.height
 		})
